@@ -165,7 +165,7 @@ func jsonAddKeyElements(s Entry, dict map[string]any) {
 		if _, exists := dict[schemaKeys[i]]; !exists {
 			// and finally we create the patheleme key attributes
 			dict[schemaKeys[i]] = treeElem.PathName()
-			treeElem = treeElem.GetParent()
 		}
+		treeElem = treeElem.GetParent()
 	}
 }
